@@ -282,14 +282,34 @@ theorem c09_decrypt_total_concrete (s0 s1 : Bytes) (n : Nat)
 secret, iv / nonce, additional data and dst of all calls of a case in the SAME backing arrays
 and overwrites them in place between the calls): in the model a call has no memory — the
 answer to each line is a function of that line alone, whatever was called before with whatever
-was in those buffers, and equals the answer in the ordinary mode.  (True by construction — the
-model's entry points are pure functions — and recorded here because it is exactly what the
+was in those buffers — valid calls and FAILING ones alike (a failed call leaves nothing
+behind: there is no state it could half-update) — and equals the answer in the ordinary mode.
+(True by construction — the model's entry points are pure functions — and recorded here because it is exactly what the
 call-by-call comparison then demands of the real code: no cipher, schedule, iv or credential
 retained BY REFERENCE from an earlier call.) -/
 theorem c09_history_is_memoryless (pre ops : List String) :
     runCase ["hist"] ops = "ok" :: ops.map (fun l => step (Golib.Proto.toks l)) ∧
     runCase ["hist"] ops = runCase ["x"] ops ∧
     (runCase ["hist"] (pre ++ ops)).drop (1 + pre.length) = (runCase ["hist"] ops).drop 1 := by
+  refine ⟨rfl, rfl, ?_⟩
+  simp only [runCase, List.map_append, List.drop_succ_cons, List.drop_zero]
+  rw [Nat.add_comm, List.drop_succ_cons]
+  have : pre.length = (pre.map fun l => step (Golib.Proto.toks l)).length := by simp
+  rw [this, List.drop_left]
+
+/-- What the ARENA stream and the results ledger of the tie instantiate (header `arena`: secret,
+additional data and plaintext / message of a call are windows of one arena with live data and
+canaries in their spare capacity; after the call the arena must be unchanged — except the
+message window of `SaltBySecret*Decrypt` with `reuseCipherText` — and no slice returned earlier
+may have changed).  In the model every entry point takes VALUES and returns a value: the answers
+do not depend on the mode, on what was called before, or on where the arguments live; "the
+caller's inputs are unchanged" and "earlier results are stable" have no counterpart to prove —
+they are demanded of the real code by the arena / ledger checks of the harness, and the round-trip
+theorems above presume them (they speak about the plaintext and secret the caller PASSED). -/
+theorem c09_arena_value_semantics (pre ops : List String) :
+    runCase ["arena"] ops = runCase ["x"] ops ∧
+    runCase ["arena"] ops = "ok" :: ops.map (fun l => step (Golib.Proto.toks l)) ∧
+    (runCase ["arena"] (pre ++ ops)).drop (1 + pre.length) = (runCase ["arena"] ops).drop 1 := by
   refine ⟨rfl, rfl, ?_⟩
   simp only [runCase, List.map_append, List.drop_succ_cons, List.drop_zero]
   rw [Nat.add_comm, List.drop_succ_cons]
